@@ -151,7 +151,7 @@ func describeEvent(ev *cEvent) string {
 	case "open":
 		s = fmt.Sprintf("open(%q,%q)", ev.Dir, ev.Name)
 	case "append":
-		s = fmt.Sprintf("append(fd#%d,%q)", ev.FD, ev.Data)
+		s = fmt.Sprintf("append(fd#%d,%s)", ev.FD, abbr(ev.Data))
 		if ev.Nil {
 			s = fmt.Sprintf("append(fd#%d,nil)", ev.FD)
 		}
@@ -164,7 +164,7 @@ func describeEvent(ev *cEvent) string {
 	case "link":
 		s = fmt.Sprintf("link(%q,%q->%q,%q)", ev.Dir, ev.Name, ev.Dir2, ev.Name2)
 	case "atomic":
-		s = fmt.Sprintf("atomiccreate(%q,%q,%q)", ev.Dir, ev.Name, ev.Data)
+		s = fmt.Sprintf("atomiccreate(%q,%q,%s)", ev.Dir, ev.Name, abbr(ev.Data))
 	}
 	switch {
 	case ev.Panic != "":
@@ -172,7 +172,7 @@ func describeEvent(ev *cEvent) string {
 	case ev.K == "create" || ev.K == "link":
 		s += fmt.Sprintf(" = %v", ev.OK)
 	case ev.K == "readat":
-		s += fmt.Sprintf(" = %q", ev.Bytes)
+		s += " = " + abbr(ev.Bytes)
 	case ev.K == "list":
 		s += fmt.Sprintf(" = %q", ev.Names)
 	}
@@ -285,7 +285,7 @@ func monitorHistory(h *cHistory, timeout time.Duration) (vs []c14verdict, lin st
 	evs := h.Events
 	detail := func() map[string]interface{} {
 		return map[string]interface{}{"impl": h.Impl, "pool": h.Pool, "build": h.Build, "gomaxprocs": h.Procs, "index": h.Idx,
-			"patterns": h.Pattern, "history": describeHistory(evs), "events": evs}
+			"patterns": h.Pattern, "history": describeHistory(evs), "events": packedEvents(evs)}
 	}
 	// overlapping pairs (different clients, intervals intersect on the logical clock)
 	pairKeys = map[string]struct{}{}
@@ -391,10 +391,50 @@ func monitorHistory(h *cHistory, timeout time.Duration) (vs []c14verdict, lin st
 		kinds, kept := culprits(evs)
 		d := detail()
 		d["results_needed_for_the_contradiction"] = kept
-		vs = append(vs, c14verdict{sig: "nonlinearizable-" + h.Impl + "-" + strings.Join(kinds, "+"),
+		suffix := ""
+		if len(kinds) == 1 && kinds[0] == "readat" {
+			if w := partialBigAppend(evs); w != "" {
+				suffix = "-partial-big-append"
+				d["partial_big_append"] = w
+			}
+		}
+		vs = append(vs, c14verdict{sig: "nonlinearizable-" + h.Impl + "-" + strings.Join(kinds, "+") + suffix,
 			what: fmt.Sprintf("%s: no sequential order of the calls consistent with real time explains the results %s", h.Impl, strings.Join(kept, " ; ")), detail: d})
 	}
 	return vs, lin, pairs, pairKeys
+}
+
+// partialBigAppend looks for the input class "a ReadAt overlapping one big
+// Append / AtomicCreate returned part of its data": a concurrent read whose
+// result ends inside the payload (≥ 4 KiB, self-identifying) of a call that
+// overlapped it in time — as a proper part of it, or with zero bytes where it
+// belongs.
+func partialBigAppend(evs []cEvent) string {
+	for i := range evs {
+		rd := &evs[i]
+		if rd.K != "readat" || rd.Panic != "" || len(rd.Bytes) == 0 || uint64(len(rd.Bytes)) >= rd.Len { // cut by its own length: says nothing
+			continue
+		}
+		for j := range evs {
+			w := &evs[j]
+			if (w.K != "append" && w.K != "atomic") || len(w.Data) < 4096 || !(w.Call < rd.Ret && rd.Call < w.Ret) {
+				continue
+			}
+			tag := w.Data[:strings.IndexByte(w.Data, '}')+1] // the stamp that is repeated
+			if tag == "" {
+				continue
+			}
+			at := strings.Index(rd.Bytes, tag)
+			zeros := strings.Count(rd.Bytes, "\x00")
+			switch {
+			case at >= 0 && !strings.Contains(rd.Bytes, w.Data):
+				return fmt.Sprintf("%s returned %d of the %d bytes of the overlapping %s", describeEvent(rd), len(rd.Bytes)-at, len(w.Data), describeEvent(w))
+			case at < 0 && zeros >= 4096:
+				return fmt.Sprintf("%s returned %d zero bytes while %s was in flight", describeEvent(rd), zeros, describeEvent(w))
+			}
+		}
+	}
+	return ""
 }
 
 func eventClass(ev *cEvent) string {
@@ -431,7 +471,11 @@ func outcomeHash(h *cHistory) string {
 		return evs[i].Call < evs[j].Call
 	})
 	for _, ev := range evs {
-		fmt.Fprintf(s, "%d %s %s %s %s %s %q %d %d %v %q %q %q\n", ev.Client, ev.K, ev.Dir, ev.Name, ev.Dir2, ev.Name2, ev.Data, ev.Off, ev.Len, ev.OK, ev.Bytes, ev.Names, ev.Panic)
+		fmt.Fprintf(s, "%d %s %s %s %s %s %d:", ev.Client, ev.K, ev.Dir, ev.Name, ev.Dir2, ev.Name2, len(ev.Data))
+		s.Write([]byte(ev.Data))
+		fmt.Fprintf(s, " %d %d %v %d:", ev.Off, ev.Len, ev.OK, len(ev.Bytes))
+		s.Write([]byte(ev.Bytes))
+		fmt.Fprintf(s, " %q %q\n", ev.Names, ev.Panic)
 	}
 	return hex.EncodeToString(s.Sum(nil)[:8])
 }
@@ -535,6 +579,8 @@ func runC14(r *core.Run) (bool, string) {
 		"every call is stamped at the client boundary from one atomic counter (call stamp taken before the invocation, return stamp after the reply). evaluations = recorded calls in histories that were checked; " +
 		"distinct = set of (implementation, class of call A, class of call B, same target name?) over pairs of calls of different clients whose intervals overlapped, class = operation + outcome (create/link ok or not, readat empty or data, list size); " +
 		"in 40 % of the programs of every pool the role names are replaced by SHAPED names (pattern shaped-names; same structure, names from the C12 catalogue: the churn names become a stem and a reserved-looking shape of it — n and n.tmp, n.<digits>-<digits>.tmp, .n.tmp, #n#, n~ … — in one directory, the second directory's churn name repeats one of them, a sealed file is named like its directory, directories are shaped / differ only by case / are called <d>.tmp; all below 120 bytes); " +
+		"in 7 % of the programs of every pool (pattern big-payloads) the first appends of every appender file become header + body + trailer with a body of 0, 1, 4 KiB, 64 KiB−1, 64 KiB, 64 KiB+1, 256 KiB or 1 MiB, the first AtomicCreate of every owner writes such a payload, and in pools B and C another client polls each such file (whole-file reads and reads across the borders of the bodies) while it grows; payloads are a tag (history, client, sequence number) repeated to the length; " +
+		"payload matrix (payload_matrix_* keys): for each of those sizes a writer appends header + body + trailer round after round (or AtomicCreates a record of that size) while readers poll through their own descriptors from the offset they have verified, with no harness synchronisation; each reader checks that what it reads is a sequence of whole appends in order / one whole record of a round not older than the last one seen; plain and -race builds of both implementations; " +
 		"pool A keeps at most one open descriptor per inode, pool B adds 'several clients open one sealed file' and 'open while another client appends', pool C is pool B's mix with boundary arguments (empty and nil data for Append / AtomicCreate, zero-length ReadAt, offsets at / beyond / far beyond the end, reads crossing the end). " +
 		"Boundary-argument matrix (matrix_* keys): every operation class = operation + boundary argument (empty / nil slices for Append and AtomicCreate, zero-length ReadAt, offsets at / beyond / far beyond EOF, reads crossing EOF, empty files and directories, names that exist / are free / are used by both goroutines, Mkdir, and on MemFs the refused calls: closed descriptor, wrong mode, missing name or directory) is looped by one goroutine while a second goroutine loops every class (itself included) on one fresh filesystem, with no harness synchronisation between start barrier and join; plain and -race builds; " +
 		"a pair counts as 'ran concurrently' when the monotonic-clock [before,after] intervals of at least one call of each goroutine intersect; each class checks only what holds in every linearization, refused classes decide only races and process death")
@@ -602,6 +648,18 @@ func runC14(r *core.Run) (bool, string) {
 		}
 		r.Count("panics_recorded_inside_calls", int64(np))
 		for _, pat := range h.Pattern {
+			if pat == "big-payloads" {
+				r.Count("histories_with_big_payloads/"+h.Impl, 1)
+				for i := range h.Events {
+					ev := &h.Events[i]
+					if ev.Phase == "concurrent" && (ev.K == "append" || ev.K == "atomic") && len(ev.Data) >= 4096 {
+						r.Count(fmt.Sprintf("concurrent_big_payload_calls/%s/%d", ev.K, len(ev.Data)), 1)
+					}
+					if ev.Phase == "concurrent" && ev.K == "readat" && len(ev.Bytes) >= 4096 {
+						r.Count("concurrent_reads_returning_4KiB_or_more", 1)
+					}
+				}
+			}
 			if pat == "shaped-names" {
 				r.Count("histories_with_shaped_names/"+h.Impl, 1)
 				cls := map[string]int64{}
@@ -671,7 +729,16 @@ func runC14(r *core.Run) (bool, string) {
 		}
 		core.Parallel(len(hs), 6, func(i int) { check(hs[i], i == 1 && b.procs == 4) })
 	})
-	c14Matrix(r, self, raceBin, raceDir, &childLog, &mu)
+	{
+		var pwg sync.WaitGroup
+		pwg.Add(1)
+		go func() {
+			defer pwg.Done()
+			c14PayloadMatrix(r, self, raceBin, raceDir, &childLog, &mu)
+		}()
+		c14Matrix(r, self, raceBin, raceDir, &childLog, &mu)
+		pwg.Wait()
+	}
 	r.Set("child_commands", childLog)
 	r.Set("histories", nHist)
 	r.Set("histories_by_impl_pool_build", poolCount)
@@ -739,6 +806,9 @@ func readHistories(path string) (hs []*cHistory, last int) {
 		}
 		var h cHistory
 		if json.Unmarshal(line, &h) == nil && len(h.Events) > 0 {
+			for i := range h.Events {
+				h.Events[i].unpack()
+			}
 			hs = append(hs, &h)
 		}
 	}
@@ -767,6 +837,9 @@ func c14Replay(r *core.Run) (bool, string) {
 	if err := json.Unmarshal(b, &f); err != nil || len(f.Detail.Events) == 0 {
 		r.Inconclusive("replay file holds no recorded history")
 		return false, "replay file holds no recorded history"
+	}
+	for i := range f.Detail.Events {
+		f.Detail.Events[i].unpack()
 	}
 	h := &cHistory{Idx: f.Detail.Idx, Impl: f.Detail.Impl, Pool: f.Detail.Pool, Build: f.Detail.Build, Procs: f.Detail.Procs, Events: f.Detail.Events}
 	vs, l, pairs, keys := monitorHistory(h, 60*time.Second)
